@@ -25,9 +25,10 @@ LEVEL_TEXT = ("Proof, partial (P). Carried by theorems, for every input: (1) loc
               "for every triple of well-formed documents satisfying the decidable merge_side_conditions (serialized-key comparison / prefix / same-array "
               "tests agree with the path-level ones on every left-right pair; no two edits of one side nested or in one array; a removal only as the last "
               "right-side edit), the model of MergeJSON equals the declarative path-wise merge. (5) op_algebra (partial): unchanged_same (change flag "
-              "false => document unchanged, every mode and path), set_then_lookup, remove_then_lookup (object-key paths); commutation on disjoint paths "
-              "and index legs not proved. (6) three refutation theorems (vm_compute witnesses, replayed on the real code every run) for the full merge "
-              "statement. (7) oracle_on_model_loc / oracle_on_model_merge. Resting on correspondence only: that the chunked, indexed text representation "
+              "false => document unchanged, every mode and path), set_then_lookup / remove_then_lookup for object-key paths and, with in-range index "
+              "legs, set_then_lookup_idx / remove_then_lookup_idx; operations on different members of one object commute; commutation for paths sharing a "
+              "prefix is not proved, so the removal-last side condition of merge_json_partial stays. (6) three refutation theorems (vm_compute witnesses, replayed on the real code every run) for the full merge "
+              "statement. (7) oracle_on_model_loc / oracle_on_model_merge_full (json_eqb_refl discharges the former premise). Resting on correspondence only: that the chunked, indexed text representation "
               "(cursor, scanner, chunker, span edits) implements the abstract operations; that the model of the in-memory operations is go-mysql-server's; "
               "that IsJsonKeyPrefix / JsonKeysModifySameArray on serialized keys equal the path relations (a checked side condition, not a lemma).")
 LEVEL_NOTE = ("Trusted: Coq kernel, Go harness + Python glue. Modelled, not verified: JSON text scanning/escaping, path-string parsing (paths are generated "
@@ -36,7 +37,8 @@ LEVEL_NOTE = ("Trusted: Coq kernel, Go harness + Python glue. Modelled, not veri
               "the faithful model and on the implementation (known findings); the 'append into an empty array is dropped' finding is a deviation of the "
               "stored document's set operation from the model, visible as a correspondence mismatch, not as a model-level refutation.")
 THEOREMS = ["loc_order_gen", "varint_self_delimiting", "varint_mono", "loc_order", "three_way_spec_gen", "three_way_doc_spec", "json_diff_sorted",
-            "merge_json_partial", "unchanged_same", "set_then_lookup", "remove_then_lookup", "oracle_on_model_loc", "oracle_on_model_merge",
+            "merge_json_partial", "unchanged_same", "set_then_lookup", "remove_then_lookup", "set_then_lookup_idx", "remove_then_lookup_idx",
+            "set_set_commute_members (partial)", "remove_remove_commute_members (partial)", "json_eqb_refl", "oracle_on_model_loc", "oracle_on_model_merge_full",
             "merge_json_refuted_prefix_siblings", "merge_json_refuted_array_shrink", "merge_json_refuted_same_array_convergent"]
 REFUTED = ["merge_json_spec (full): merge_json_refuted_prefix_siblings, merge_json_refuted_array_shrink, merge_json_refuted_same_array_convergent"]
 RULE = ("ops: nested documents (shared key prefixes, keys needing quoting, multi-byte keys, long strings so the text spans several 4 kB chunks) with chains of "
@@ -45,7 +47,8 @@ RULE = ("ops: nested documents (shared key prefixes, keys needing quoting, multi
         "or the merge had at least one edit on each side; distinct by content")
 ASSUMPTIONS = ["numbers are integers of magnitude < 2^53; object keys are non-empty valid UTF-8 without backslashes",
                "path strings are printed from structural legs (keys not matching \\w+ are double-quoted)"]
-REQUIRED_TAGS = ["op-changed", "op-unchanged", "op-error", "lookup-found", "lookup-missing", "multi-chunk", "merge-clean", "merge-conflict",
+REQUIRED_TAGS = ["merge-array-replaced-vs-element", "merge-object-replaced-vs-member", "long-array-op", "long-array-op-at-240", "long-array-merge", "loc-index-240",
+                 "op-changed", "op-unchanged", "op-error", "lookup-found", "lookup-missing", "multi-chunk", "merge-clean", "merge-conflict",
                  "merge-both-sides", "loc-lt", "loc-gt", "loc-eq", "sqlmerge", "quoted-key", "last-leg"]
 
 KEYS = ["a", "ab", "abc", "b", "a1", "z", "k y", "a.b", 'q"t', "é", "x", "id"]
@@ -206,6 +209,71 @@ def gen_merge_case(rng, kind="merge", big=False):
     return {"kind": kind, "base": base, "left": left, "right": right}
 
 
+def gen_array_vs_element_case(rng, kind="merge"):
+    """one side replaces / removes an array (or object) as a whole, the other edits inside it"""
+    key = rng.choice(["k", "a", "ab", "z"])
+    container = rng.choice(["arr", "arr", "arr", "obj"])
+    if container == "arr":
+        inner = [gen_scalar(rng) for _ in range(rng.randint(2, 5))]
+        edited = list(inner); edited[rng.randrange(len(inner))] = "edited"
+    else:
+        inner = {k: gen_scalar(rng) for k in rng.sample(KEYS, rng.randint(2, 4))}
+        edited = dict(inner); edited[rng.choice(sorted(inner))] = "edited"
+    base = {key: inner, "other": 1}
+    whole = dict(base)
+    if rng.random() < 0.35:
+        del whole[key]
+    else:
+        whole[key] = rng.choice([5, "s", None, {"n": 1}, [0]]) if container == "arr" else rng.choice([5, "s", None, [1]])
+    inside = dict(base); inside[key] = edited
+    if rng.random() < 0.3:
+        base = {"wrap": base}; whole = {"wrap": whole}; inside = {"wrap": inside}
+    left, right = (whole, inside) if rng.random() < 0.5 else (inside, whole)
+    return {"kind": kind, "base": base, "left": left, "right": right, "shape": "container-vs-inside-" + container}
+
+
+LONG_IDX = [0, 1, 238, 239, 240, 240, 240, 241, 242, 250]
+
+
+def gen_long_array_ops(rng):
+    n = rng.choice([241, 245, 260, 300])
+    elem = rng.choice([{"x": 1}, {"x": 1, "y": "v"}, [1, 2], {"x": {"y": 2}}])
+    if rng.random() < 0.15:
+        n = 2300
+    doc = {"arr": [elem] * n} if rng.random() < 0.7 else [elem] * n
+    pre = [("k", "arr")] if isinstance(doc, dict) else []
+    ops = []
+    idxs = LONG_IDX + ([2287, 2288, 2289] if n == 2300 else [])
+    for _ in range(rng.randint(2, 3)):
+        i = rng.choice(idxs)
+        if isinstance(elem, dict):
+            tail = rng.choice([[("k", "x")], [("k", "new")], [("k", "x")], []])
+            if "y" in elem.get("x", {}) if isinstance(elem.get("x"), dict) else False:
+                tail = rng.choice([[("k", "x"), ("k", "y")], tail])
+        else:
+            tail = rng.choice([[("i", 0)], [("i", 1)], []])
+        legs = pre + [("i", i)] + tail
+        m = rng.choice([0, 0, 1, 2, 3, 6, 6]) if tail else rng.choice([0, 2, 6])
+        ops.append({"m": m, "path": path_str(legs), "legs": legs, "val": rng.choice([7, "nv", {"q": 1}, [3]])})
+    return {"kind": "ops", "doc": doc, "ops": ops, "shape": "long-array"}
+
+
+def gen_long_array_merge(rng):
+    n = rng.choice([242, 245, 260])
+    elem = rng.choice([{"x": 1}, {"x": 1, "y": "v"}, [1, 2]])
+    base = {"arr": [elem] * n, "b": 1}
+    left = json.loads(json.dumps(base)); left["b"] = 2
+    right = json.loads(json.dumps(base))
+    i = rng.choice([239, 240, 240, 240, 241])
+    if isinstance(elem, dict):
+        right["arr"][i] = dict(elem, x=rng.choice([9, "changed"]))
+    else:
+        right["arr"][i] = [elem[0], 99]
+    if rng.random() < 0.5:
+        left, right = right, left
+    return {"kind": "merge", "base": base, "left": left, "right": right, "shape": "long-array"}
+
+
 def gen_loc_case(rng):
     def p():
         legs = []
@@ -213,7 +281,7 @@ def gen_loc_case(rng):
             if rng.random() < 0.6:
                 legs.append(("k", rng.choice(KEYS)))
             else:
-                legs.append(("i", rng.choice([0, 1, 2, 9, 240, 241, 300, 2287, 2288, 5000, 67823, 67824, 10 ** 6, 2 ** 24, 2 ** 32 + 5, 2 ** 56 + 1])))
+                legs.append(("i", rng.choice([0, 1, 2, 9, 239, 240, 240, 241, 242, 250, 300, 2047, 2048, 2287, 2288, 2289, 5000, 67823, 67824, 67825, 10 ** 6, 2 ** 24, 2 ** 32 + 5, 2 ** 56 + 1])))
         return legs
     a = p()
     b = p() if rng.random() < 0.6 else (a[:rng.randint(0, len(a))] + p()[:rng.randint(0, 2)])
@@ -247,6 +315,13 @@ def gen_cases(rng, tier):
         cases.append(gen_merge_case(rng, big=(i % 15 == 0)))
     for _ in range(n_sql):
         cases.append(gen_merge_case(rng, "sqlmerge"))
+    n_cvi, n_lops, n_lmerge = (24, 10, 6) if q else (600, 300, 150)
+    for i in range(n_cvi):
+        cases.append(gen_array_vs_element_case(rng, "sqlmerge" if (q and i < 2) else "merge"))
+    for _ in range(n_lops):
+        cases.append(gen_long_array_ops(rng))
+    for _ in range(n_lmerge):
+        cases.append(gen_long_array_merge(rng))
     for _ in range(n_loc):
         cases.append(gen_loc_case(rng))
     return cases
@@ -275,6 +350,27 @@ def cq_str_bytes(bs):
     return "(" + " ++ ".join(parts) + ")"
 
 
+def cq_runs(items, pr):
+    """a Coq list; long runs of equal consecutive elements are spelled with repeat"""
+    if len(items) < 24:
+        return cq_list(pr(x) for x in items)
+    parts, lit, i = [], [], 0
+    while i < len(items):
+        j = i
+        while j < len(items) and items[j] == items[i] and type(items[j]) == type(items[i]):
+            j += 1
+        if j - i >= 8:
+            if lit:
+                parts.append(cq_list(lit)); lit = []
+            parts.append("repeat %s %d" % (pr(items[i]), j - i))
+        else:
+            lit.extend(pr(x) for x in items[i:j])
+        i = j
+    if lit:
+        parts.append(cq_list(lit))
+    return "(" + " ++ ".join(parts) + ")"
+
+
 def cq_json(v):
     """python JSON value -> Coq term (objects sorted by key bytes)"""
     if v is None:
@@ -290,7 +386,7 @@ def cq_json(v):
     if isinstance(v, str):
         return "(JStr %s)" % cq_str_bytes(v.encode("utf-8"))
     if isinstance(v, list):
-        return "(JArr %s)" % cq_list(cq_json(x) for x in v)
+        return "(JArr %s)" % cq_runs(v, cq_json)
     items = sorted(((k.encode("utf-8"), x) for k, x in v.items()), key=lambda kv: kv[0])
     return "(JObj %s)" % cq_list("(%s, %s)" % (cq_bytes(k), cq_json(x)) for k, x in items)
 
@@ -307,7 +403,7 @@ def cq_canon(c):
     if t == "s":
         return "(JStr %s)" % cq_str_bytes(c[1])
     if t == "a":
-        return "(JArr %s)" % cq_list(cq_canon(x) for x in c[1])
+        return "(JArr %s)" % cq_runs(c[1], cq_canon)
     return "(JObj %s)" % cq_list("(%s, %s)" % (cq_bytes(k), cq_canon(x)) for k, x in c[1])
 
 
@@ -378,6 +474,14 @@ def classify(case, out):
         return ["panic-or-error"]
     k = case["kind"]
     t = [k]
+    if case.get("shape") == "long-array":
+        t.append("long-array-op" if k == "ops" else "long-array-merge")
+        if k == "ops" and any(("i", 240) in [tuple(l) for l in op["legs"]] for op in case["ops"]):
+            t.append("long-array-op-at-240")
+    if case.get("shape", "").startswith("container-vs-inside"):
+        t.append("merge-array-replaced-vs-element" if case["shape"].endswith("arr") else "merge-object-replaced-vs-member")
+    if k == "loc" and any(tuple(l) == ("i", 240) for l in case.get("pl", []) + case.get("ql", [])):
+        t.append("loc-index-240")
     if k == "ops":
         if o.get("kb", 0) >= 1:
             t.append("multi-chunk")
